@@ -308,10 +308,11 @@ func runC05(r *Run) {
 	flushSurvivesRevert(r)
 	uncommittedRunsOnBranch(r)
 	flushIsAllOrNothing(r)
+	flushKeepsSelfDestructed(r)
 
 	// ---------- R5 ----------
 	r.Rule("R5", "PATH.flush-skip: StateDB.Commit runs in the middle of a transaction (before every precompile dispatch), so 'nothing to write' for a dirty slot is judged against what an earlier flush of this transaction wrote (transientStorage) whenever such a value exists, and against the originally loaded value only when it does not: the comparison with originStorage is reachable only over the not-found edge of the transientStorage lookup, and each SetState is followed by recording the value in transientStorage — otherwise a slot flushed inside a frame that later reverts keeps the reverted value in the store")
-	if cm, ok := P.FnOK("(*x/evm/statedb.StateDB).Commit"); ok {
+	if cm, ok := commitBodyFn(P); ok {
 		var notFound []Edge
 		var originCmp []ssa.Instruction
 		var bodyStart []*ssa.BasicBlock
@@ -378,7 +379,7 @@ func runC05(r *Run) {
 				wit = P.witness(w)
 			}
 		}
-		r.Check(okSkip, "R5", fnID(cm)+"#origin-compared-only-when-never-flushed", P.Pos(fnPos(cm)), "dirty == origin is consulted only when the slot was not flushed earlier in this transaction",
+		r.Check(okSkip, "R5", commitInstID+"#origin-compared-only-when-never-flushed", P.Pos(fnPos(cm)), "dirty == origin is consulted only when the slot was not flushed earlier in this transaction",
 			"StateDB.Commit can decide 'nothing to write' by comparing the dirty value with the originally loaded value although an earlier flush of this transaction already wrote another value: SSTORE in a frame, precompile call (flush), frame reverts — the final commit skips the write-back and the reverted value stays in the store", wit...)
 		// every SetState is followed by the transientStorage update
 		isSetState := isCallMatching(func(ci CallInfo) bool { return ci.Name == "SetState" && ci.Invoke })
@@ -421,7 +422,7 @@ func runC05(r *Run) {
 				b := x.Block()
 				return x == b.Instrs[0] && b != lb && isLoopHeader(b) && dominates(b, lb)
 			}}.Search()
-			r.Check(w == nil, "R5", fmt.Sprintf("%s#flushed-value-recorded-%d", fnID(cm), nSS), P.Pos(instrPos(in)), "SetState is followed by transientStorage[key] = value (or by queueing the pair for the loop that records it)", "a flushed storage value is not recorded in transientStorage: a later Commit of the same transaction compares against the stale original value and skips or repeats writes", P.witness(w)...)
+			r.Check(w == nil, "R5", fmt.Sprintf("%s#flushed-value-recorded-%d", commitInstID, nSS), P.Pos(instrPos(in)), "SetState is followed by transientStorage[key] = value (or by queueing the pair for the loop that records it)", "a flushed storage value is not recorded in transientStorage: a later Commit of the same transaction compares against the stale original value and skips or repeats writes", P.witness(w)...)
 		})
 		r.Floor("R5", "SetState calls in StateDB.Commit", nSS, 1)
 	} else {
@@ -532,7 +533,7 @@ func effectIsFirstWrite(r *Run) {
 func flushAfterValidation(r *Run) {
 	P := r.P
 	r.Rule("R8", "PATH.nothing-flushed-before-validation: a stateful precompile writes the pending EVM state to the SDK context (StateDB.Commit) before it dispatches — but only then: RunSetup (method lookup, write protection of read-only frames, argument decoding) and the functions it calls never flush, and in every Run the flush is reachable only after RunSetup returned without error. A call that is rejected in set-up must leave the journal-tracked state unflushed, otherwise the writes of a frame that reverts afterwards are already in the store and the revert drops them from the dirty set (they are never rewritten)")
-	isCommit := isCallMatching(func(ci CallInfo) bool { return ci.Name == "Commit" && ci.Recv == "StateDB" })
+	isCommit := isCallMatching(func(ci CallInfo) bool { return isFlushCall(ci) })
 	if rs, ok := P.FnOK("(precompiles/common.Precompile).RunSetup"); ok {
 		bad := ""
 		for fn := range moduleReach(P, rs, 3) {
@@ -560,7 +561,7 @@ func flushAfterValidation(r *Run) {
 				setup = ci.Instr
 			}
 		})
-		nCommit := len(findCalls(m.Run, func(ci CallInfo) bool { return ci.Name == "Commit" && ci.Recv == "StateDB" }))
+		nCommit := len(findCalls(m.Run, func(ci CallInfo) bool { return isFlushCall(ci) }))
 		if nCommit == 0 {
 			continue // C02 R2 requires the flush; nothing to order here
 		}
@@ -740,7 +741,7 @@ func handlerRunsOnBranch(r *Run) {
 func flushSurvivesRevert(r *Run) {
 	P := r.P
 	r.Rule("R10", "FLOW.flush-survives-revert: every stateful precompile flushes the StateDB into the SDK context before it runs (StateDB.Commit in the middle of a transaction; queries included). Commit writes the journal-dirty addresses only, and reverting a frame removes an address from the dirty set when all its changes were made inside that frame. So StateDB.Commit must remember the addresses it wrote (a container held by the StateDB, updated in Commit) and iterate them again next time, whatever the journal says — otherwise the writes of a frame that called any precompile and then reverted stay in the store: storage and payments of a reverted frame are permanent, and an account that is still dirty for another reason is 'restored' by minting")
-	cm, ok := P.FnOK("(*x/evm/statedb.StateDB).Commit")
+	cm, ok := commitBodyFn(P)
 	if !ok {
 		r.Bad("R10", "anchor/StateDB.Commit", "", "not found")
 		return
@@ -748,12 +749,12 @@ func flushSurvivesRevert(r *Run) {
 	// is Commit ever called mid-transaction? (precompile Run methods)
 	mid := 0
 	for _, m := range wiredPrecompiles(r) {
-		if m.Run != nil && len(findCalls(m.Run, func(ci CallInfo) bool { return ci.Name == "Commit" && ci.Recv == "StateDB" })) > 0 {
+		if m.Run != nil && len(findCalls(m.Run, func(ci CallInfo) bool { return isFlushCall(ci) })) > 0 {
 			mid++
 		}
 	}
 	if mid == 0 {
-		r.OK("R10", fnID(cm)+"#flush-survives-revert", P.Pos(fnPos(cm)), "no precompile flushes mid-transaction")
+		r.OK("R10", commitInstID+"#flush-survives-revert", P.Pos(fnPos(cm)), "no precompile flushes mid-transaction")
 		return
 	}
 	// fields of StateDB that Commit updates with a map insert / append (what it remembers) …
@@ -790,7 +791,7 @@ func flushSurvivesRevert(r *Run) {
 			}
 		}
 	})
-	r.Check(iterates, "R10", fnID(cm)+"#flush-survives-revert", P.Pos(fnPos(cm)), "Commit re-visits the addresses earlier Commits wrote",
+	r.Check(iterates, "R10", commitInstID+"#flush-survives-revert", P.Pos(fnPos(cm)), "Commit re-visits the addresses earlier Commits wrote",
 		fmt.Sprintf("%d precompile Run method(s) flush the StateDB mid-transaction, but Commit iterates the journal's dirty set only and remembers nothing of what it wrote: a frame that writes state, calls any precompile (a query suffices) and reverts leaves its writes in the store — demonstrated: sstore + payment in a reverted frame persist and the supply grows by the payment", mid))
 }
 
@@ -1412,12 +1413,12 @@ func valueOf(in ssa.Instruction) ssa.Value {
 func flushIsAllOrNothing(r *Run) {
 	P := r.P
 	r.Rule("R12", "PATH.flush-is-all-or-nothing: StateDB.Commit also runs in the middle of a transaction (the flush every stateful precompile starts with), where its error only fails the current call frame — and it can fail after it has written some accounts (SetBalance refuses a blocked recipient such as a precompile address that was sent value). Every keeper write in Commit (DeleteAccount, SetCode, SetAccount, SetState) therefore receives the context of a CacheContext() branch, the branch's write function is called on every success exit and on no path to a failure exit, and the flushed-slot record (transientStorage) is updated only after it — otherwise a failed precompile frame leaves accounts, balances or storage of a half-written flush in the store")
-	cm, ok := P.FnOK("(*x/evm/statedb.StateDB).Commit")
+	cm, ok := commitBodyFn(P)
 	if !ok {
 		r.Bad("R12", "anchor/StateDB.Commit", "", "not found")
 		return
 	}
-	inst := fnID(cm) + "#flush-is-all-or-nothing"
+	inst := commitInstID + "#flush-is-all-or-nothing"
 	var cache *ssa.Call
 	eachInstr(cm, func(in ssa.Instruction) {
 		if c, ok := in.(*ssa.Call); ok && callInfo(c).Name == "CacheContext" {
@@ -1485,4 +1486,71 @@ func flushIsAllOrNothing(r *Run) {
 	}}.Search()
 	r.Check(bad == "" && nW >= 4 && w1 == nil && w2 == nil && w3 == nil, "R12", inst, P.Pos(fnPos(cm)), "keeper writes go to a CacheContext branch written on every success exit, on no failure path, before the flushed-slot record",
 		"StateDB.Commit is not all-or-nothing ("+bad+"): a flush that fails half way — inside a precompile call frame that the calling contract tolerates — leaves part of the dirty state (an auth account for the precompile address, a sender's debit without the credit, storage) in the store, or records slots as flushed that were never written", P.witness(append(append(w1, w2...), w3...))...)
+}
+
+// flushKeepsSelfDestructed (C05 R13): the mid-transaction flush does not carry out SELFDESTRUCT.
+func flushKeepsSelfDestructed(r *Run) {
+	P := r.P
+	r.Rule("R13", "PATH.selfdestruct-takes-effect-at-the-end: SELFDESTRUCT is carried out when the transaction's state is committed; until then the frame that executed it can still be reverted, and the journal restores the state object — not an auth account, a code hash and a storage that were deleted from the store. The flush a stateful precompile starts with must therefore not delete self-destructed accounts: every precompile Run flushes with StateDB.Flush (never Commit), Flush reaches the keeper's DeleteAccount on no path (in the shared write-back loop the call is reachable only over the true edge of the 'final' flag, which Flush passes as false), and Commit passes it as true")
+	body, ok := commitBodyFn(P)
+	if !ok {
+		r.Bad("R13", "anchor/StateDB.Commit", "", "not found")
+		return
+	}
+	n := 0
+	for _, fn := range P.Funcs {
+		if fn.Name() != "Run" || fn.Signature.Recv() == nil || !strings.Contains(fnPkgPath(fn), "/precompiles/") || fn.Synthetic != "" || isTestSupport(P, fn) {
+			continue
+		}
+		eachCall(fn, func(ci CallInfo) {
+			if !isFlushCall(ci) {
+				return
+			}
+			n++
+			r.Check(ci.Name == "Flush", "R13", fnID(fn)+"#flushes-without-deleting", P.Pos(instrPos(ci.Instr)), "StateDB.Flush",
+				"the precompile flushes the StateDB with Commit, which carries out pending SELFDESTRUCTs: a contract that self-destructed in a frame that later reverts is gone from the store for good (account, code hash, every storage slot — also slots the successful outer frame wrote)")
+		})
+	}
+	r.Floor("R13", "mid-transaction flushes in precompile Run methods", n, 4)
+	// the shared loop: DeleteAccount only under the flag
+	var flag *ssa.Parameter
+	for _, p := range body.Params {
+		if b, ok := p.Type().Underlying().(*types.Basic); ok && b.Kind() == types.Bool {
+			flag = p
+		}
+	}
+	isDel := isCallMatching(func(ci CallInfo) bool { return ci.Name == "DeleteAccount" })
+	if flag == nil {
+		r.Bad("R13", commitInstID+"#delete-only-when-final", P.Pos(fnPos(body)), "the write-back loop has no 'final' flag: every flush deletes self-destructed accounts")
+	} else {
+		pass, _ := guardPassEdges(body, func(cond ssa.Value) (bool, bool) {
+			return true, stripValue(cond) == ssa.Value(flag)
+		})
+		// `obj.suicided && final` short-circuits: the flag's own If may be the second one
+		w := PathQuery{Fn: body, Target: isDel, DelEdge: edgeSet(pass)}.Search()
+		r.Check(w == nil && len(pass) > 0, "R13", commitInstID+"#delete-only-when-final", P.Pos(fnPos(body)), "DeleteAccount reachable only over the true edge of the flag",
+			"the write-back loop can delete a self-destructed account although the flush is not the final one", P.witness(w)...)
+	}
+	for name, want := range map[string]bool{"Flush": false, "Commit": true} {
+		fn, ok := P.FnOK("(*x/evm/statedb.StateDB)." + name)
+		if !ok {
+			r.Bad("R13", "anchor/StateDB."+name, "", "not found")
+			continue
+		}
+		okArg, nC := true, 0
+		eachCall(fn, func(ci CallInfo) {
+			if ci.Static != body {
+				return
+			}
+			nC++
+			for _, a := range ci.Instr.Common().Args {
+				if c, isC := a.(*ssa.Const); isC {
+					if b, isB := c.Type().Underlying().(*types.Basic); isB && b.Kind() == types.Bool && constBool(c) != want {
+						okArg = false
+					}
+				}
+			}
+		})
+		r.Check(okArg && nC == 1, "R13", fnID(fn)+"#final-flag", P.Pos(fnPos(fn)), fmt.Sprintf("calls the write-back loop with final = %v", want), fmt.Sprintf("StateDB.%s does not call the shared write-back loop with final = %v", name, want))
+	}
 }
